@@ -17,7 +17,7 @@ pub fn floor_mean64(w: &[i16]) -> i16 {
 }
 impl Adc {
     pub fn simple(mac: [u8; 6], adc32_channel: u8, waveform: Vec<i16>) -> Adc {
-        let n = waveform.len() as u16 + 2;
+        let n = (waveform.len() as u16).wrapping_add(2);
         Adc { accepted_trigger: 1, module_id: 0, channel_byte: 128 + adc32_channel, requested_samples: n, event_timestamp: 0x0000_0001_0000_0002, mac,
             trigger_offset: -10, build_timestamp: 0x6000_0000, waveform, keep_last: 0, keep_bit: false, suppression: false, baseline: None, zero_bytes: [0, 0], ptype: 1, version: 3, footer_hi_bits: 0 }
     }
